@@ -186,6 +186,9 @@ def text_stream(rng, n_valid, n_malformed):
                 it["attrs"] = it.get("attrs", []) + ["#[" + rng.choice(gen.ATTR_BODIES[:7]) + "]"]
         valid.append(gen.render(g, rng if rng.random() < 0.7 else None))
     mal = gen.malformed_texts(rng, valid, n_malformed)
+    # one structural quantity at the limits of 8/16-bit counters (valid or with a single error): these go in front of
+    # the malformed stream so that every check that uses the stream sees them
+    mal = gen.size_probes(thorough=(n_malformed > 5000)) + mal
     return valid, mal
 
 
@@ -1106,8 +1109,9 @@ def mirror_mismatch(items, emitted):
     return None
 
 
-def accepted_pool(rng, n, names="plain", usize=False, attrs=False, derive=None):
-    """Grammars that pass validation and table construction, with their emitted text."""
+def accepted_pool(rng, n, names="plain", usize=False, attrs=False, derive=None, rejected=None):
+    """Grammars that pass validation and table construction, with their emitted text.
+    `rejected` (a list) receives the (items, text, answer) of the grammars generate did not accept."""
     out = []
     tries = 0
     while len(out) < n and tries < n * 6:
@@ -1121,6 +1125,11 @@ def accepted_pool(rng, n, names="plain", usize=False, attrs=False, derive=None):
                 if it["kind"] != "start":
                     k = rng.choice([0, 0, 1, 2, 3])
                     it["attrs"] = ["#[" + rng.choice(ATTRS_BALANCED) + "]" for _ in range(k)]
+                    if rng.random() < 0.08:
+                        # bracket nesting around the limits of small counters; identical attributes twice
+                        it["attrs"].append(gen.deep_attr(rng.choice([127, 128, 254, 255, 256, 257, 300]), rng.choice(["(", "([{"])))
+                    if it["attrs"] and rng.random() < 0.15:
+                        it["attrs"].insert(rng.randint(0, len(it["attrs"])), rng.choice(it["attrs"]))
         out.append(items)
     texts = [gen.render(it, rng if rng.random() < 0.5 else None) for it in out]
     res = kv.run_impl("generate", [kv.hexs(t) for t in texts])
@@ -1128,6 +1137,8 @@ def accepted_pool(rng, n, names="plain", usize=False, attrs=False, derive=None):
     for it, t, o in zip(out, texts, res):
         if o.startswith("(ok "):
             keep.append((it, t, kv.unhexs(o[4:-1])))
+        elif rejected is not None:
+            rejected.append((it, t, o))
     return keep[:n], len(out)
 
 
@@ -1164,7 +1175,25 @@ def run_C06(rep, tier, rng):
 
 def run_C12(rep, tier, rng):
     n = 150 if tier == "quick" else 2500
-    pool, tried = accepted_pool(rng, n, attrs=True)
+    rejected = []
+    pool, tried = accepted_pool(rng, n, attrs=True, rejected=rejected)
+    # balanced single-line attributes must not change whether a file is accepted: a rejected file whose
+    # attribute-free version is accepted (or rejected differently) is a violation
+    bare = []
+    for items, text, o in rejected:
+        import copy
+        it2 = copy.deepcopy(items)
+        for d in it2:
+            if "attrs" in d:
+                d["attrs"] = []
+        bare.append(gen.render(it2))
+    if bare:
+        res2 = kv.run_impl("generate", [kv.hexs(t) for t in bare])
+        for (items, text, o), o2 in zip(rejected, res2):
+            head = lambda x: x[1:].split(" ", 2)[:2] if x.startswith("(err") else x[:4]
+            if o2.startswith("(ok ") or head(o) != head(o2):
+                rep.violation("a declaration with balanced single-line attributes is not accepted although the same file without attributes is (the attributes are not reproduced at all)",
+                              {"source": text, "with_attributes": o[:300], "without_attributes": o2[:120]})
     n_attr = 0
     for items, text, emitted in pool:
         decls = [d for d in items if d["kind"] == "terminal"] + [d for d in items if d["kind"] in ("struct", "enum")]
@@ -1605,7 +1634,7 @@ def run_C10(rep, tier, rng):
             rep.violation("validation error is not truthful: " + why, {"source": text, "impl": ip[errs[0]], "injected": labels})
     report_disagreements(rep, dis, "validation result (error variant and payload, or validated file)", "C10_ok_sound / C10_err_truthful")
     return {"evaluations": len(cases), "distinct_nontrivial": kv.distinct_count([t for (it, labs), t in zip(cases, texts) if labs]),
-            "rule": "valid grammars with 0–3 injected static violations out of 28 kinds (including violations inside declarations nothing refers to, so that no later stage can mask the verdict; and the offending name existing in the other namespace: terminal used as nonterminal, nonterminal used as terminal, terminal enum name used as nonterminal, start naming a terminal); Ok ⇒ WellFormed and Err ⇒ Truthful evaluated on the implementation's answer (any truthful error is accepted); non-trivial = at least one violation injected",
+            "rule": "valid grammars with 0–3 injected static violations out of 29 kinds (including violations inside declarations nothing refers to, so that no later stage can mask the verdict; and the offending name existing in the other namespace: terminal used as nonterminal, nonterminal used as terminal, terminal enum name used as nonterminal, start naming a terminal); Ok ⇒ WellFormed and Err ⇒ Truthful evaluated on the implementation's answer (any truthful error is accepted); non-trivial = at least one violation injected",
             "samples": sample([t for (it, labs), t in zip(cases, texts) if labs]), "error_variants_hit": hit, "model_disagreements": len(dis)}
 
 
